@@ -234,6 +234,9 @@ def run_junk(tier, acc):
                             else:
                                 lines.append(p_.encode(enc))
                         lines.insert(pos, jb)
+                        if hexmode == 'plain' and nl == b'\n':
+                            # the same junk line on two adjacent lines (sorted lists with duplicates)
+                            lines.insert(pos, jb)
                         data = nl.join(lines) + nl
                         acc.evals += 1
                         acc.nontrivial += 1
@@ -245,7 +248,8 @@ def run_junk(tier, acc):
                         except Exception as e:
                             acc.fail(case, 'junk line %s at line %d (%s) makes the reader raise %r' % (jname, pos, enc, e), 'junk-raise:' + jname.split('_')[0])
                             continue
-                        want_err = 1 if jname in ('undecodable', 'broken_hex', 'odd_hex') else 0
+                        reps = 2 if (hexmode == 'plain' and nl == b'\n') else 1
+                        want_err = reps if jname in ('undecodable', 'broken_hex', 'odd_hex') else 0
                         if got == seq and (npw != len(seq) or nerr != want_err):
                             acc.fail(case, 'junk line %s at line %d (%s, valid lines %s): num_passwords=%d num_encoding_errors=%d, expected %d and %d'
                                      % (jname, pos, enc, hexmode, npw, nerr, len(seq), want_err), 'junk-counters:' + jname.split('_')[0])
